@@ -17,6 +17,13 @@ import random
 from urllib.parse import parse_qsl, unquote, urlsplit
 
 from harness.c03 import (
+    qa_object,
+    qa_pairs,
+    path_for,
+    ScheduleStream,
+    run_schedule,
+    schedule_shapes,
+    w_grants,
     LITS,
     METHODS,
     canon_model_outcome,
@@ -41,7 +48,9 @@ from vlib.core import Check, Stream, hs, line
 MAX_HOPS = 6
 
 HOSTILE = ["//evil.example/x", "/\\evil.example", "//", "///a", "/a%2Fb", "/%", "/é", "/a b", "/a?b=1", "/a#b", "//evil.example//", "/\\\\evil.example/a", "/a/%2e%2e/b", "/%C3%A9", "/a//b/", "////", "/\t", "/a;b"]
-QAS = [None, None, ["t", "a=1&b=x%20y"], ["t", "q=é"], ["t", ""], ["t", "a=b&a=c"], ["p", [["a", "1"], ["b", "x y"]]], ["p", [["k", "é&="], ["z", ""]]], ["p", []], ["t", "next=//evil.example/"], ["p", [["next", "//evil.example/?x"]]]]
+QAS = [None, None, ["t", "a=1&b=x%20y"], ["t", "q=é"], ["t", ""], ["t", "a=b&a=c"], ["p", [["a", "1"], ["b", "x y"]]], ["p", [["k", "é&="], ["z", ""]]], ["p", []], ["t", "next=//evil.example/"], ["p", [["next", "//evil.example/?x"]]],
+       # multi-valued mappings: a dict whose values are lists / tuples, a MultiDict with repeated keys
+       ["m", [["tag", ["a", "b"]], ["q", ["1"]]]], ["m", [["q", ["1"]], ["tag", ["x y", "é", ""]]]], ["p", [["tag", "a"], ["tag", "b"]]], ["p", [["a", "1"], ["b", "2"], ["a", "3"]]], ["m", [["next", ["//evil.example/", "?x"]]]]]
 SCRIPTS = ["/", "/", "/app", "/app/", "", "/a/b/", "/a/b"]
 
 
@@ -69,14 +78,12 @@ def hop_target(cfg, a, url):
 
 
 def py_qa(qa):
-    if qa is None:
-        return None
-    return qa[1] if qa[0] == "t" else [tuple(p) for p in qa[1]]
+    return qa_object(qa)
 
 
-def real_chain(case, probe):
+def real_chain(case, probe, built=None):
     """[(outcome text, path, qa)] following RequestRedirect on the real code"""
-    m, robjs = real_map(case["cfg"], case["rules"])
+    m, robjs = built if built is not None else real_map(case["cfg"], case["rules"])
     a = real_adapter(m, case["cfg"], case["adapter"])
     path, meth = probe
     qa = py_qa(case["qa"])
@@ -176,6 +183,33 @@ def with_alias(rng, base, idx):
     return mk_rule(toks, endpoint=base["endpoint"], methods=base["methods"], alias=True, defaults=dict(base["defaults"]))
 
 
+def with_pinning_alias(rng, base, idx):
+    """an alias of `base` that pins one of its URL variables through `defaults` (same endpoint, same
+    argument set): '/archive/<int:year>' + alias '/archive/millennium' defaults year=2000. The alias
+    redirect must carry the pinned value (RequestAliasRedirect is raised after the rule's defaults
+    were merged into the converted values)."""
+    toks = base["toks"]
+    def unbounded(c):
+        # the pinned value must be one the canonical converter accepts: no min / max bounds
+        return not ((c[0] == "i" and (c[3] is not None or c[4] is not None)) or (c[0] == "f" and (c[2] is not None or c[3] is not None)))
+
+    var_idx = [i for i, t in enumerate(toks) if t != "/" and t[0] == "V" and t[1][0] != "p" and unbounded(t[1])]
+    if not var_idx or base["defaults"]:
+        return None
+    i = rng.choice(var_idx)
+    conv, name = toks[i][1], toks[i][2]
+    j0 = i
+    while j0 > 0 and toks[j0 - 1] != "/":
+        j0 -= 1
+    j1 = i
+    while j1 + 1 < len(toks) and toks[j1 + 1] != "/":
+        j1 += 1
+    new = toks[:j0] + [["L", rng.choice(["pinned", "millennium", "second"])]] + toks[j1 + 1 :]
+    if rng.random() < 0.5:
+        new = ["/", ["L", rng.choice(["old", "alt"])]] + new
+    return mk_rule(new, endpoint=base["endpoint"], methods=base["methods"], alias=True, defaults={name: default_value_for(rng, conv)})
+
+
 def pattern_key(r):
     """the rule's pattern with variable names erased"""
     return json.dumps([t if t == "/" or t[0] == "L" else ["V", t[1]] for t in r["toks"]] + [r["dom"]])
@@ -220,6 +254,17 @@ class RedirectStream(Stream):
         {"cfg": mk_cfg(), "rules": [mk_rule(toks_of("/a/<any(a, b):n>/"), "e"), mk_rule(toks_of("/idx/"), "e", defaults={"n": ["s", "b"], "fmt": ["i", 0]}), mk_rule(toks_of("/alt/a/<any(a, b):n>/"), "e", alias=True)], "adapter": mk_adapter(), "qa": None, "probes": [["/alt/a/b/", "GET"], ["/a/b/", "GET"], ["/alt/a/a/", "GET"]]},
         # alias
         {"cfg": mk_cfg(), "rules": [mk_rule(toks_of("/users/<int:id>"), "u"), mk_rule(toks_of("/people/<int:id>"), "u", alias=True)], "adapter": mk_adapter(script="/app"), "qa": ["p", [["a", "b c"]]], "probes": [["/people/7", "GET"], ["/users/7", "GET"]]},
+        # an alias rule that pins a URL variable of its canonical rule through `defaults` (seeded change C12-c1:
+        # RequestAliasRedirect raised before the rule's defaults were merged -> self-redirect loop / wrong page)
+        {"cfg": mk_cfg(), "rules": [mk_rule(toks_of("/archive/<int:year>"), "archive"), mk_rule(toks_of("/archive/millennium"), "archive", alias=True, defaults={"year": ["i", 2000]})], "adapter": mk_adapter(script="/app", scheme="https"), "qa": ["t", "a=1&b=%C3%BC"], "probes": [["/archive/millennium", "GET"], ["/archive/2000", "GET"]]},
+        {"cfg": mk_cfg(), "rules": [mk_rule(toks_of("/users/"), "users", defaults={"page": ["i", 1]}), mk_rule(toks_of("/users/page/<int:page>"), "users"), mk_rule(toks_of("/users/second"), "users", alias=True, defaults={"page": ["i", 2]})], "adapter": mk_adapter(), "qa": None, "probes": [["/users/second", "GET"], ["/users/page/2", "GET"], ["/users/page/1", "GET"], ["/users/", "GET"]]},
+        # websocket flag x slash probe (seeded change C12-d1): a ws-bound adapter and an http branch rule (and the reverse)
+        {"cfg": mk_cfg(), "rules": [mk_rule(toks_of("/bar/"), "bar")], "adapter": mk_adapter(scheme="ws"), "qa": None, "probes": [["/bar", "GET"], ["/bar/", "GET"]]},
+        {"cfg": mk_cfg(), "rules": [mk_rule(toks_of("/bar/"), "bar", ws=True), mk_rule(toks_of("/<path:p>/"), "p")], "adapter": mk_adapter(scheme="https"), "qa": ["m", [["tag", ["a", "b"]]]], "probes": [["/bar", "GET"], ["/x/y", "GET"]]},
+        {"cfg": mk_cfg(), "rules": [mk_rule(toks_of("/bar/"), "bar", ws=True), mk_rule(toks_of("/bar/"), "bar-http")], "adapter": mk_adapter(scheme="wss"), "qa": None, "probes": [["/bar", "GET"], ["/bar/", "GET"]]},
+        # multi-valued query arguments on every kind of redirect (seeded change C12-d2)
+        {"cfg": mk_cfg(), "rules": [mk_rule(toks_of("/bar/"), "bar"), mk_rule(toks_of("/a/b"), "ab"), mk_rule(toks_of("/all/"), "all", defaults={"page": ["i", 1]}), mk_rule(toks_of("/all/page/<int:page>"), "all"), mk_rule(toks_of("/old/"), "bar", alias=True)], "adapter": mk_adapter(scheme="https"), "qa": ["m", [["tag", ["a", "b"]], ["q", ["1"]]]], "probes": [["/bar", "GET"], ["/a//b", "GET"], ["/all/page/1", "GET"], ["/old/", "GET"]]},
+        {"cfg": mk_cfg(), "rules": [mk_rule(toks_of("/bar/"), "bar"), mk_rule(toks_of("/a/b"), "ab"), mk_rule(toks_of("/all/"), "all", defaults={"page": ["i", 1]}), mk_rule(toks_of("/all/page/<int:page>"), "all"), mk_rule(toks_of("/old/"), "bar", alias=True)], "adapter": mk_adapter(), "qa": ["p", [["tag", "a"], ["tag", "b"]]], "probes": [["/bar", "GET"], ["/a//b", "GET"], ["/all/page/1", "GET"], ["/old/", "GET"]]},
         # hostile first segments
         {"cfg": mk_cfg(), "rules": [mk_rule(toks_of("/<path:p>/"), "p"), mk_rule(toks_of("/a/"), "a")], "adapter": mk_adapter(), "qa": None, "probes": [[p, "GET"] for p in HOSTILE]},
         {"cfg": mk_cfg(), "rules": [mk_rule(toks_of("/<path:p>/"), "p")], "adapter": mk_adapter(script="/app/", scheme="https", sub="api", qa=["t", "q=1"]), "qa": None, "probes": [[p, "GET"] for p in HOSTILE[:8]]},
@@ -239,6 +284,7 @@ class RedirectStream(Stream):
             cfg = mk_cfg(strict=rng.random() < 0.7, merge=rng.random() < 0.7, rd=rng.random() < 0.85)
             nr = rng.choice([1, 2, 2, 3, 3, 4])
             rules = []
+            pinned = []
             subs = ["", "", ""]
             for i in range(nr):
                 r, _ = gen_rule(rng, len(rules), cfg, f03=0.04)
@@ -273,12 +319,36 @@ class RedirectStream(Stream):
                     al["dom"] = r["dom"]
                     if pattern_key(al) not in {pattern_key(x) for x in rules}:
                         rules.append(al)
+                if rng.random() < 0.15:
+                    al = with_pinning_alias(rng, r, len(rules))
+                    if al is not None:
+                        al["dom"], al["strict"], al["merge"] = r["dom"], r["strict"], r["merge"]
+                        if pattern_key(al) not in {pattern_key(x) for x in rules}:
+                            pinned.append(al)
+                            if rng.random() < 0.5:
+                                rules.insert(len(rules) - 1, al)
+                            else:
+                                rules.append(al)
             adapter = gen_adapter(rng, cfg, subs)
-            if adapter["scheme"] in ("ws", "wss"):
-                for r in rules:
+            # the websocket flag as a dimension: per endpoint (siblings and aliases share it), websocket rules
+            # under ws / wss adapters mostly, but also http rules under a ws adapter and websocket rules under http
+            wsy = adapter["scheme"] in ("ws", "wss")
+            mixed = rng.random() < 0.35
+            flag = {}
+            for r in rules:
+                ep = r["endpoint"]
+                if ep not in flag:
+                    flag[ep] = (rng.random() < (0.6 if wsy else 0.25)) if mixed else wsy
+                if flag[ep]:
                     r["ws"] = True
                     if r["methods"] is not None:
                         r["methods"] = [m for m in r["methods"] if m.upper() in ("GET", "HEAD", "OPTIONS")] or ["GET"]
+            for r in rules:
+                # (methods are shared between a rule and the siblings derived from it)
+                if r["ws"]:
+                    for o in rules:
+                        if o["endpoint"] == r["endpoint"] and o["methods"] is not None:
+                            o["methods"] = [m for m in o["methods"] if m.upper() in ("GET", "HEAD", "OPTIONS")] or ["GET"]
             probes = gen_probes(rng, rules, 6)
             # default values spelled out in the URL trigger the defaults redirect
             for r in rules:
@@ -286,6 +356,12 @@ class RedirectStream(Stream):
                     for other in rules:
                         if other["endpoint"] == r["endpoint"] and not other["defaults"]:
                             probes.append([self.path_with_defaults(rng, other, r["defaults"]), rng.choice(["GET", "GET", "POST"])])
+            for al in pinned:
+                # the alias URL itself, and the canonical URL spelling the pinned value
+                probes.append([path_for(rng, al, "hit"), rng.choice(["GET", "GET", "POST"])])
+                for other in rules:
+                    if other["endpoint"] == al["endpoint"] and not other["alias"] and not other["defaults"]:
+                        probes.append([self.path_with_defaults(rng, other, al["defaults"]), "GET"])
             probes += [[rng.choice(HOSTILE), "GET"] for _ in range(2)]
             qa = rng.choice(QAS)
             yield {"cfg": cfg, "rules": rules, "adapter": adapter, "qa": qa, "probes": probes}
@@ -385,7 +461,7 @@ class RedirectStream(Stream):
             want_q = None
             want_text = qa[1]
         else:
-            want_q = [tuple(p) for p in qa[1]]
+            want_q = qa_pairs(qa)
             want_text = None
         seen_urls = []
         for st in steps:
@@ -518,11 +594,94 @@ class RedirectStream(Stream):
         yield {**case, "qa": None}
 
 
+class RedirectScheduleStream(ScheduleStream):
+    """C12 over thread schedules: request threads following router redirects on a shared map while
+    another thread is inside Map.update() (every pre-emption point), on maps whose alias rule is
+    declared BEFORE its canonical rule / whose defaults rule is declared after the variable rule - the
+    canonicalisation redirects go through build(), i.e. through the build_compare_key order of
+    `_rules_by_endpoint`. Oracle: this property's redirect oracle on every thread's chain."""
+
+    name = "schedules"
+    SHAPES = [
+        # (rules, path)
+        ([("/people/<int:id>", "u", {}, True), ("/users/<int:id>", "u", {}, False)], "/people/7"),
+        ([("/old/<string:s>/", "e", {}, True), ("/new/<string:s>/", "e", {}, False)], "/old/x/"),
+        ([("/all/page/<int:page>", "all", {}, False), ("/all/", "all", {"page": ["i", 1]}, False)], "/all/page/1"),
+        ([("/x/<int:id>", "u", {}, True), ("/y/<int:id>", "u", {}, True), ("/users/<int:id>", "u", {}, False)], "/y/7"),
+    ]
+    corpus = [
+        # seeded change C12-c2: thread 0 pre-empted inside the endpoint sort, thread 1 requests the alias URL
+        {"cfg": mk_cfg(), "rules": [mk_rule(toks_of("/people/<int:id>"), "u", alias=True), mk_rule(toks_of("/users/<int:id>"), "u")], "adapter": mk_adapter(), "qa": None,
+         "acts": [["F", "/users/1", "GET"], ["F", "/people/7", "GET"]], "grants": [0] * 5 + [1] * 10 + [0] * 10 + [1] * 10},
+        {"cfg": mk_cfg(), "rules": [mk_rule(toks_of("/people/<int:id>"), "u", alias=True), mk_rule(toks_of("/users/<int:id>"), "u")], "adapter": mk_adapter(script="/app", scheme="https"), "qa": ["t", "a=1"],
+         "acts": [["F", "/users/1", "GET"], ["F", "/people/7", "GET"]], "grants": [0] * 4 + [1] * 10 + [0] * 10 + [1] * 10},
+    ]
+
+    def cases(self, rng, tier):
+        n = 0
+        limit = 200 if tier == "quick" else 3000
+        while n < limit:
+            shape, path = rng.choice(self.SHAPES)
+            rules = [mk_rule(toks_of(t), e, defaults=d, alias=al) for t, e, d, al in shape]
+            if rng.random() < 0.5:
+                rules = [mk_rule(toks_of("/other/<int:a>"), "other")] + rules
+            cfg = mk_cfg(strict=rng.random() < 0.8, merge=rng.random() < 0.8)
+            adapter = mk_adapter(script=rng.choice(SCRIPTS), scheme=rng.choice(["http", "https"]))
+            nreq = rng.choice([2, 2, 3])
+            acts = [["F", path, "GET"] for _ in range(nreq)]
+            qa = rng.choice(QAS)
+            if rng.random() < 0.3:
+                acts = [["A", 2]] + acts
+                shapes = schedule_shapes(rng, nreq, 1, (2,))
+            else:
+                shapes = schedule_shapes(rng, nreq)
+            for g in shapes:
+                n += 1
+                yield {"cfg": cfg, "rules": rules, "adapter": adapter, "qa": qa, "acts": acts, "grants": g}
+
+    def real(self, case):
+        def mk(m, robjs, a):
+            def go():
+                chain, end = real_chain(case, [a[1], a[2]], built=(m, robjs))
+                return " > ".join(chain) + (f" > {end}" if end else "")
+
+            return go
+
+        ev, res, fin = run_schedule(case, mk)
+        return f"{','.join(ev) if ev else '[]'} ; {'|'.join('~' if r is None else str(r) for r in res)} ; {'1' if fin else '0'}"
+
+    def model_line(self, case):
+        acts = "!".join(f"A{a[1]}" if a[0] == "A" else "F" + hs(a[1]) + ":" + hs(a[2]) for a in case["acts"])
+        return line("route.sched", w_map(case["cfg"], case["rules"]), w_adapter(case["adapter"]), w_qa(case["qa"]), MAX_HOPS, acts, w_grants(case["grants"]))
+
+    def canon_model(self, case, out):
+        parts = out.split(" ; ")
+        if len(parts) == 3:
+            parts[1] = "|".join(" > ".join(canon_model_outcome(o) for o in ch.split(" > ")) for ch in parts[1].split("|"))
+        return " ; ".join(parts)
+
+    def oracle(self, case, real_out):
+        if real_out.startswith("EXC"):
+            return "forced schedule raised " + real_out
+        _, res, _ = real_out.split(" ; ")
+        rs = RedirectStream()
+        sub = {"cfg": case["cfg"], "rules": case["rules"], "adapter": case["adapter"], "qa": case["qa"]}
+        for a, out in zip(case["acts"], res.split("|")):
+            if a[0] == "A" or out == "~":
+                continue
+            if out.startswith("EXC"):
+                return f"thread requesting {a[1]!r} under the schedule: {out}"
+            for what, fam in rs.check_probe(sub, [a[1], a[2]], out):
+                if fam is None:
+                    return f"path {a[1]!r} requested while another thread was inside Map.update(): {what}"
+        return None
+
+
 CHECK = Check(
     prop="C12",
-    gen=["Routing", "RoutingSamples"],
-    modules=["WzVerif.Props.C12"],
-    streams=[RedirectStream()],
+    gen=["Routing", "RoutingSamples", "RoutingLock", "RoutingGlue"],
+    modules=["WzVerif.Props.C12", "WzVerif.Props.C03L"],
+    streams=[RedirectStream(), RedirectScheduleStream()],
     assumptions=[
         "model scope: the redirects MapAdapter.match raises on its own (slash, merged slashes, defaults, alias); redirect_to rules are application supplied and not modelled; host_matching maps are outside the theorems (BoundOK) and the stream",
         "bound adapter is WSGI-shaped: script_name empty or starting with '/', non-empty server name, scheme http/https/ws/wss; a script_name without leading slash makes build() glue it onto the host (observed, outside the claim: not a valid SCRIPT_NAME)",
@@ -530,6 +689,10 @@ CHECK = Check(
         "a client following a redirect is modelled as urlsplit + unquote of the path + the raw query string (what a WSGI server hands to bind_to_environ); query strings containing '#' are outside the stream",
         "alias rules are claimed only with a canonical (non-alias) rule of the same endpoint, arguments, methods and protocol (the documented meaning of alias=True); an alias without one redirects to itself forever - the `assert url != path` in make_alias_redirect_url compares the URL with 'domain|path' and can never fire (observed, application error)",
         "oracle item 'final endpoint / arguments equal the original's' is asserted when the map does not itself leave the visited paths ambiguous (no path of the chain admitted by two rules): with overlapping rules what a canonical URL denotes is decided by rule priority (C03), not by the redirect",
+        "Map.update / Map.add protocol (Props/C03L, shared by C03 / C04 / C12): the statement order of both functions is regenerated from map.py by AST (Gen/RoutingLock; an unknown statement becomes `.other` and breaks the discipline obligations); the interleaving semantics is a model: each statement is atomic except the two sorts, which pass through an unsorted state (list.sort empties the list while it runs); rules are abstract ids and sortedness w.r.t. a set of rules is the only property of the structures that is kept; threads / the GIL / Lock are Python's (modelled, validated by stream schedules: the real code is stepped through the same grant lists via Map.lock_class, a Map subclass with a `_remap` property, wrapped _matcher.update / add and a Rule subclass whose build_compare_key stops inside the endpoint sort). update_passes_sorted assumes add() threads do not move while the lock is held (necessary on the unchanged code: add_during_update_loses_flag - Map.add concurrent with request handling is outside the documented use)",
+        "query arguments are passed the way the API documents them: None, a str, or a Mapping - dict (also with list / tuple values), MultiDict for repeated keys (whose own order, values grouped per key, is the expectation); 'preserves the query string' is asserted on every redirect of every kind",
+        "websocket flag: per endpoint, websocket rules under ws / wss adapters and http rules under http adapters mostly, but also the mixed combinations (a redirect whose target raises WebsocketMismatch is a violation)",
+        "alias rules that pin a URL variable of their canonical rule through `defaults` are generated with values the canonical converter accepts (no min / max bounds on that converter)",
         "known finding F12a (C12 face of F03c): the slash / merged-slashes redirect is decided before to_python validates the value, so its target can be NotFound",
         "known finding F12c: the alias redirect canonicalises through build(), which may select a rule of the endpoint with extra default-only arguments (no equal-arguments guard, unlike get_default_redirect); witness alias_redirect_adds_default_arguments",
         "defaults siblings are generated with equal argument sets (redirect expected), with one or two extra default-only arguments and with fewer arguments than the variable rule (no redirect expected: provides_defaults_for demands equal sets); the oracle compares the end of the chain with what the path denotes when redirect_defaults is off",
@@ -542,7 +705,7 @@ CHECK = Check(
 )
 
 MANIFEST = {
-    "level_text": "Machine-checked Lean 4 theorems about the model of MapAdapter.match's redirects: every router redirect (slash, merged slashes, defaults, alias) is, character for character, bound scheme + '://' + get_host(None or the canonical rule's own subdomain) + script root + a path not starting with '/' + exactly the request's query (redirect_on_bound_host, slash_redirect_on_bound_host incl. the character set quote can emit, by decide over all 256 bytes); the target of a slash redirect is directly admitted by the rule that asked for it and the target of a merged-slashes redirect re-matches to the same rule without another redirect. The model is tied to the code by a differential stream that follows redirects to a fixpoint; the property oracle runs on the real code.",
+    "level_text": "Machine-checked Lean 4 theorems about the model of MapAdapter.match's redirects: every router redirect (slash, merged slashes, defaults, alias) is, character for character, bound scheme + '://' + get_host(None or the canonical rule's own subdomain) + script root + a path not starting with '/' + exactly the request's query (redirect_on_bound_host, slash_redirect_on_bound_host incl. the character set quote can emit, by decide over all 256 bytes); the target of a slash redirect is directly admitted by the rule that asked for it and the target of a merged-slashes redirect re-matches to the same rule without another redirect. The model is tied to the code by a differential stream that follows redirects to a fixpoint; the property oracle runs on the real code. Round 3: slash_redirect_converges and defaults_redirect_converges in one piece, alias_redirect_values_include_defaults, pins of the matcher tail order and of encode_query_args / make_redirect_url, the Map.update protocol theorems (Props/C03L) and forced-schedule redirect chains.",
     "level_note": "Trusted: Lean kernel; extract.py; harness; CPython urllib.parse (modelled, stream-validated). Partial: the full-strength exclusion of a second consecutive slash redirect is false (F12b, negation witness proved) and is proved under the no-empty-middle-segment hypothesis; defaults_redirect_converges is proved in a partial form (same endpoint / arguments after the re-match, given C04.match_build_partial for the canonical rule); absence of a second defaults redirect and alias convergence are proved under explicit hypotheses (necessity witnessed). BoundOK excludes host_matching. Known findings F12a, F12b, F12c.",
     "technique": "Lean 4 proof (list reasoning over the URL assembly, decide +kernel over all bytes for quote, reuse of the C03 matcher lemmas) + model/code correspondence",
     "design_ref": "DESIGN.md section 4, C12",
